@@ -55,6 +55,7 @@ func (c14) Gen(r *sim.Rng, tier string) *scn.Scn {
 		} else {
 			o := gen.DefaultOpts()
 			o.MaxDepth = 2
+			o.LargeBytes = true
 			o.FieldPerm = 120
 			m := gen.New(r.Fork(), gen.Type(typ), o)
 			// make sure bytes-typed content is present: that is what can alias
